@@ -27,10 +27,10 @@ Fixpoint asize_ty (t : aty) : nat :=
   | TVar _ | TScalar _ => 1
   | TAdt _ args => S (list_sum (map asize_garg args))
   | TTuple ts => S (list_sum (map asize_ty ts))
-  | TRef _ _ t | TRaw _ t | TSlice t => S (asize_ty t)
+  | TRef _ _ t | TRaw _ t | TSlice t | TArray t _ => S (asize_ty t)
   | TStr | TNever => 1
   end
-with asize_garg (a : agarg) : nat := match a with GTy t => S (asize_ty t) | GLt _ => 1 end.
+with asize_garg (a : agarg) : nat := match a with GTy t => S (asize_ty t) | _ => 1 end.
 
 Lemma in_list_sum' A (f : A -> nat) x l : In x l -> f x <= list_sum (map f l).
 Proof. unfold list_sum. induction l; cbn; [tauto|]. intros [->|H]; [lia|]. apply IHl in H. lia. Qed.
@@ -55,7 +55,7 @@ Proof.
   assert (Hg : forall a, asize_garg a <= n -> need_garg a <= length (p_garg a)).
   { intros a Ha. destruct (IHa a Ha) as [H|[t [-> H]]]; [lia|exact H]. }
   split.
-  - intros t Hs. destruct t as [v|nm args|s|ts|m l t|m t|t| |]; cbn [asize_ty] in Hs; cbn [need_ty p_ty].
+  - intros t Hs. destruct t as [v|nm args|s|ts|m l t|m t|t|t c| |]; cbn [asize_ty] in Hs; cbn [need_ty p_ty].
     + destruct v; cbn; lia.
     + cbn [length]. apply le_n_S.
       eapply Nat.le_trans; [|apply len_angle]. rewrite map_map_len.
@@ -73,11 +73,13 @@ Proof.
     + cbn [length]. rewrite !app_length. assert (need_ty t <= length (p_ty t)) by (apply IHt; lia). lia.
     + cbn [length]. assert (need_ty t <= length (p_ty t)) by (apply IHt; lia). lia.
     + cbn [length]. rewrite !app_length. assert (need_ty t <= length (p_ty t)) by (apply IHt; lia). lia.
+    + cbn [length]. rewrite !app_length. assert (need_ty t <= length (p_ty t)) by (apply IHt; lia). lia.
     + cbn; lia.
     + cbn; lia.
-  - intros a Hs. destruct a as [t|l]; cbn [asize_garg] in Hs.
+  - intros a Hs. destruct a as [t|l|nn|[]]; cbn [asize_garg] in Hs.
     + right. exists t. split; [reflexivity|]. apply IHt. lia.
     + left. destruct l as [[d i]| |]; cbn; lia.
+    + left. cbn; lia.
 Qed.
 
 Lemma need_ty_len t : need_ty t <= length (p_ty t).
@@ -85,7 +87,7 @@ Proof. apply (proj1 (need_le_len (asize_ty t))). lia. Qed.
 
 Lemma need_garg_len a : need_garg a <= length (p_garg a).
 Proof.
-  destruct a as [t|l]; cbn [need_garg p_garg]; [apply need_ty_len|lia].
+  destruct a as [t|l|nn|[]]; cbn [need_garg p_garg]; [apply need_ty_len|lia|lia].
 Qed.
 
 Lemma need_gargs_len args : need_gargs args <= length (p_args args).
@@ -103,16 +105,16 @@ Proof.
 Qed.
 
 Lemma len_binder_names D i ks : length (p_binder_names D i ks) = length ks /\
-                                list_sum (map (fun x => S (length x)) (p_binder_names D i ks)) = 2 * length ks.
+                                2 * length ks <= list_sum (map (fun x => S (length x)) (p_binder_names D i ks)).
 Proof.
-  revert i. unfold list_sum. induction ks as [|k r IH]; intros i; [split; reflexivity|].
-  destruct (IH (S i)) as [E1 E2]. destruct k; cbn [p_binder_names length map fold_right]; rewrite E1, E2; split; lia.
+  revert i. unfold list_sum. induction ks as [|k r IH]; intros i; [split; [reflexivity|cbn; lia]|].
+  destruct (IH (S i)) as [E1 E2]. destruct k; cbn [p_binder_names btok length map fold_right] in *; rewrite E1; split; lia.
 Qed.
 
 Lemma len_params D i ks : length ks <= length (p_params D i ks).
 Proof.
   unfold p_params. eapply Nat.le_trans; [|apply len_angle].
-  rewrite (proj2 (len_binder_names D i ks)). lia.
+  pose proof (proj2 (len_binder_names D i ks)). lia.
 Qed.
 
 Lemma need_qwc_len D q : need_qwc q + 2 <= length (p_qwc D q).
